@@ -1,8 +1,9 @@
 (* C08 -- StableStore is a durable map, isolated from the log.
-   INTERIM file: the full statements are `seq_refinement_stmt` (Get returns the
-   value of the latest successful Set across any interleaving with log
-   operations and clean reopens) and `crash_refinement_stmt` (across crashes) of
-   Wal/Hist.v, whose proofs are in progress. *)
+   The full statements are `seq_refinement_stmt` (Get returns the value of the
+   latest successful Set across any interleaving with log operations and clean
+   reopens) -- PROVED, see the sequential part at the end of this file -- and
+   `crash_refinement_stmt` (across crashes) of Wal/Hist.v, whose proof is in
+   progress (the fragments below concern that half). *)
 From RW Require Import Base.Bytes Base.BytesFacts Fmt.Codec Fmt.Frame Wal.Model Wal.Spec Wal.Hist Wal.BasicFacts
   Wal.SeqFactsMain Wal.SeqFactsStable.
 Open Scope N_scope.
